@@ -31,6 +31,9 @@ func Mk3() string               { return "" }
 func Mk4() string               { return "" }
 func Probe(id int, x any)       {}
 func Enter(name string)         {}
+func Leave()                    {}
+func GoBegin()                  {}
+func GoEnd()                    {}
 func D(k int)                   {}
 `
 
@@ -88,7 +91,43 @@ func Sink6(x any)               { record("6", x) }
 func Sink7(x any)               { record("7", x) }
 func Sink8(x any)               { record("8", x) }
 func Probe(id int, x any)       {}
-func Enter(name string)         {}
+
+// call-event recording for the dispatch family (C12/C18): every function starts with Enter(id); defer Leave().
+var (
+	cstack  []string
+	events  = map[string]bool{}
+	waiting = -1
+	goDone  = make(chan bool, 8)
+)
+
+func Enter(name string) {
+	caller := "<root>"
+	if len(cstack) > 0 {
+		caller = cstack[len(cstack)-1]
+	}
+	events[caller+">"+name] = true
+	cstack = append(cstack, name)
+}
+
+func Leave() {
+	if len(cstack) > 0 {
+		cstack = cstack[:len(cstack)-1]
+	}
+	if waiting >= 0 && len(cstack) == waiting {
+		waiting = -1
+		goDone <- true
+	}
+}
+
+// GoBegin/GoEnd bracket a go statement: GoEnd blocks until the launched function has returned.
+func GoBegin() { waiting = len(cstack) }
+func GoEnd() {
+	select {
+	case <-goDone:
+	case <-time.After(2 * time.Second):
+		waiting = -1
+	}
+}
 
 var dlog []string
 var logs = map[string]bool{}
@@ -207,6 +246,7 @@ type Result struct {
 	Branches int
 	Panics   int
 	Capped   bool
+	Events   []string // C12/C18: "caller>callee" ids
 	Logs     []string // C16: distinct deferred-run logs ("3,1" = D(3) ran first), "!p" suffix when the run panicked
 }
 
@@ -243,6 +283,8 @@ func runOnce1(e Entry, prefix []bool) (n int, panicked bool) {
 	pos = 0
 	valid = map[string]bool{}
 	dlog = nil
+	cstack = nil
+	waiting = -1
 	e.Reset()
 	defer func() {
 		if r := recover(); r != nil {
@@ -263,6 +305,7 @@ func runOnce1(e Entry, prefix []bool) (n int, panicked bool) {
 func Explore(e Entry) Result {
 	flows = map[string]bool{}
 	logs = map[string]bool{}
+	events = map[string]bool{}
 	res := Result{Name: e.Name}
 	var rec func(prefix []bool)
 	rec = func(prefix []bool) {
@@ -288,6 +331,10 @@ func Explore(e Entry) Result {
 		res.Flows = append(res.Flows, f)
 	}
 	sort.Strings(res.Flows)
+	for ev := range events {
+		res.Events = append(res.Events, ev)
+	}
+	sort.Strings(res.Events)
 	if WantLogs {
 		for l := range logs {
 			res.Logs = append(res.Logs, l)
